@@ -19,7 +19,8 @@ Pool == {"a", "b", "f"}
 GDecl == {"", "var a;", "var b;", "val a = 1;", "val b = a;", "val a = b;", "array a[2];", "array b[a];", "array a[0];", "val f = 2;"}
 ProcDecl == {"", "proc f() is skip", "proc f(val a) is a := a", "func f(val a) is return a", "func f(array b) is return b[0]",
              "proc a() is skip", "func f() is skip", "func f(val a, val a) is return a", "proc f(array a) is a[0] := f", "func b(val x) is return f(x)",
-             "func f(val x) is return f(x - 1)"}
+             "func f(val x) is return f(x - 1)", "proc f() is skip\nfunc f(array v) is return 1", "func f(val a) is return a\nproc f() is f(1)",
+             "proc main() is skip", "proc f(val b) is b(1)\nproc b() is skip"}
 \* statement shapes; X, Y, Z are name slots
 Shapes == {"X := Y", "X[Y] := Z", "X(Y)", "X := Y(Z)", "X := Y[Z]", "return X", "X()", "X := Y + Z(X, Y)", "{ }", "if X then Y := 1 else skip",
            "while X do Y()", "X := \"\"", "0(X(1) = 2)", "X := -Y", "X(Y[Z])", "X(\"s\", Y)", "X := Y(Z())", "2(X)", "X[Y(Z)] := X[Y(Z)]", "1(X, Y, Z)",
